@@ -9,7 +9,8 @@ EXTENDS PluginManager, Json
 CONSTANTS Emit, MaxComps
 VARIABLE in
 
-Guard == <<"g1", "g2", "g3", "g4", "g5", "g6">>
+(* deep enough for 2 * MaxComps "..": the name is used twice in the executable's path *)
+Guard == <<"g1", "g2", "g3", "g4", "g5", "g6", "g7", "g8">>
 Roots == {Guard \o <<"plugins">>, Guard \o <<"x", "plugins">>, Guard \o <<"x", "y", "plugins">>}
 AllComps == Comps \cup {"nul", "long"}
 Names == [abs : BOOLEAN, comps : UNION {[1..k -> AllComps] : k \in 1..MaxComps}]
